@@ -62,7 +62,8 @@ RULE = ("case = (generated program: plain function or DBC chain of 1..3 classes 
         "hash(program, ops, assignment). Plus enumerated matrices: call shapes; the two-base matrix of C04; a recursion "
         "matrix (the body calls the callable again directly / through another function / on another or the same "
         "instance, depth 4 x forbidden-argument subsets x with/without postcondition x sync/async): each nested call's "
-        "body runs iff its own precondition holds.")
+        "body runs iff its own precondition holds; adoption histories (a function already called stand-alone or through "
+        "a first class is adopted as the override of a DBC member: 2 x 2 x 2 x 2 set-ups x 4 truth pairs).")
 ASSUMPTIONS = ["which falsy condition's error surfaces is C16's business; C01 accepts the error of any falsy one",
                "operations rejected by a falsy invariant before the call are not judged here (C03)"]
 
@@ -233,6 +234,87 @@ def recursion_matrix(ctx):
                          {"directed": "recursion"}, "%s: evaluated %r, expected %r" % (label, got, want))
 
 
+def adoption_history(ctx):
+    """Histories: a function with (or without) its own precondition has ALREADY been called - stand-alone, or through a
+    first class that uses it - when a DBC class adopts it as the override of a member (`class D(B): m = f`). From then on
+    the call through D is gated by (inherited group) OR (own group), whatever happened before. Enumerated: sync/async x
+    own precondition or none x called before adoption or not x one adopter or two sibling adopters of different bases x
+    the four truth combinations."""
+    import itertools
+    import icontract
+    from vf.progmodel.run import drive
+
+    for is_async, own_pre, warm, siblings in itertools.product((False, True), (True, False), (True, False), (False, True)):
+        T = {"base": True, "other": True, "own": True}
+        entered = []
+
+        class Base(icontract.DBC):
+            @icontract.require(lambda x: T["base"], "base-pre")
+            def m(self, x):
+                return x
+
+        class Other(icontract.DBC):
+            @icontract.require(lambda x: T["other"], "other-pre")
+            def m(self, x):
+                return x
+
+        if is_async:
+            async def f(self, x):
+                entered.append(x)
+                return x
+        else:
+            def f(self, x):
+                entered.append(x)
+                return x
+        if own_pre:
+            def own_ok(x):  # (a lambda stated outside a decorator is declared unsupported by the library's message builder)
+                return T["own"]
+
+            f = icontract.require(own_ok, "own-pre")(f)
+
+        def call(fn, *a):
+            r = fn(*a)
+            return drive(r) if is_async else r
+
+        if warm:
+            call(f, None, 1)  # the function is used stand-alone before it becomes a method
+        classes = []
+        if siblings:
+            First = type(Base)("First", (Other,), {"m": f})
+            if warm:
+                call(First().m, 1)
+            classes.append((First, "other"))
+        D_ = type(Base)("D_", (Base,), {"m": f})
+        classes.append((D_, "base"))
+        label = "%s, own precondition: %s, called before adoption: %s, adopted by %d classes" % (
+            "async" if is_async else "sync", own_pre, warm, len(classes))
+        for cls, key in classes:
+            for tb, to in itertools.product((True, False), repeat=2):
+                # one function object shared by two classes carries ONE list of groups (C17's open finding D45 is about
+                # that); both bases' groups get the same verdict here so that the expectation does not depend on it
+                T.update(base=tb, other=tb)
+                T["own"] = to
+                del entered[:]
+                try:
+                    call(cls().m, 5)
+                    got = "accepted"
+                except icontract.ViolationError:
+                    got = "rejected"
+                except BaseException as e:  # noqa
+                    got = "%s: %s" % (type(e).__name__, e)
+                # without an own precondition the override has nothing to weaken with: the inherited group alone decides
+                accept = tb or (own_pre and to)
+                want = "accepted" if accept else "rejected"
+                ctx.case(["adoption", is_async, own_pre, warm, siblings, cls.__name__, tb, to], warm and not tb,
+                         sample={"directed": "adoption: " + label, "class": cls.__name__, "inherited holds": tb, "own holds": to})
+                ctx.count("directed:adoption-history")
+                if got != want or (accept and entered != [5]) or (not accept and entered):
+                    ctx.fail("adopted-function|%s|%s|%s" % ("async" if is_async else "sync", "warm" if warm else "cold",
+                                                            "siblings" if siblings else "single"),
+                             {"directed": "adoption"}, "%s; through %s with inherited group %s and own group %s: expected %s, got %s "
+                             "(bodies entered: %r)" % (label, cls.__name__, tb, to if own_pre else "absent", want, got, entered))
+
+
 def directed(ctx, only=None):
     """The enumerated two-base matrix of C04 (who provides the member with/without preconditions, in both orders),
     judged with C01's projection; plus the directed call shapes."""
@@ -240,6 +322,7 @@ def directed(ctx, only=None):
 
     directed_shapes(ctx)
     recursion_matrix(ctx)
+    adoption_history(ctx)
     for case in c04.multi_base_matrix():
         D.run_one(ctx, case, JUDGE, nontrivial=nontrivial)
     for case in c04.diamond_matrix():  # which arm's override (and precondition) the bottom class gets
